@@ -146,7 +146,13 @@ def handle (j : Json) : Except String Json := do
       ("indexes", Json.arr (t.indexes.map (fun i => Json.arr #[Codec.jStrs i.cols, toJson i.unique])).toArray),
       ("checks", Codec.jStrs t.checks)]
     let ms := sig.apps.flatMap (fun a => a.models)
+    let named := sig.apps.flatMap (fun a => a.models.map (fun m => (a.id ++ "." ++ m.name, m)))
+    let lookup := fun (n : String) => (named.find? (fun p => p.1 == n)).map (·.2)
+    let fj := fun (l : List Sql.Fk) => Json.arr (l.map (fun f => Codec.jStrs [f.col, f.refTable, f.refCol])).toArray
     pure (Json.mkObj [
+      ("fresh_fks", Json.mkObj (ms.map (fun m => (m.table, fj (Sql.freshFks sqliteEnv lookup m))))),
+      ("rebuilt_fks", Json.mkObj (ms.map (fun m => (m.table,
+        fj (Sql.rebuiltFks Generated.fkReferenceAttr sqliteEnv lookup m))))),
       ("fresh", Json.mkObj (ms.map (fun m => (m.table, tj (Sql.fresh sqliteEnv m))))),
       ("rebuilt", Json.mkObj (ms.map (fun m => (m.table, tj (Sql.rebuilt sqliteEnv m))))),
       ("plain", Json.mkObj (ms.map (fun m => (m.table, toJson (Sql.plainModel m)))))])
